@@ -14,7 +14,7 @@ for f in sorted(glob.glob(os.path.join(ROOT, "seeded", "C*", "meta.json"))):
 out = ["# Independent seeded changes", "",
        "Each change was written by a sub-agent that saw only the text of one property and a scratch worktree of /repo (nothing from /verif).",
        "`selftest/record_seed.py <Cnn>` confirmed it on a scratch copy (demo passes without / fails with the change, baseline tests unchanged) and ran",
-       "every registered check (quick tier) against the changed copy.  `meta.json` in each directory holds the full record.", "",
+       "the check of the targeted property (quick tier) against the changed copy - and every registered check when that one missed it (rounds 1-2: always every check).  `meta.json` in each directory holds the full record.", "",
        "| property | change (first line of the author's notes) | confirmation | caught by its own check (quick) | caught by | after strengthening |",
        "|---|---|---|---|---|---|"] + rows
 open(os.path.join(ROOT, "seeded", "README.md"), "w").write("\n".join(out) + "\n")
